@@ -67,8 +67,18 @@ def main(argv=None):
             return 2
         rc = run_check(prop, args.tier, args.repo, seed)
         if rc == 0 and args.tier == 'thorough':
-            from . import selftest
-            rc = selftest.run([prop], args.repo, jobs=16, quiet=True)
+            # checker self-validation on scratch copies of the current tree (a failure is exit 2, never a VIOLATION)
+            from . import variants
+            import json
+            vrc, stats = variants.run_stats([prop], args.repo, jobs=16, quiet=False)
+            evp = os.path.join(report.EVIDENCE_DIR, prop + '.json')
+            try:
+                ev = json.load(open(evp))
+                ev['coverage']['self_validation'] = stats
+                json.dump(ev, open(evp, 'w'), indent=1, sort_keys=True, default=str)
+            except Exception:
+                pass
+            rc = vrc
         return rc
     if args.cmd == 'all':
         worst = 0
